@@ -28,3 +28,22 @@ __CPROVER_assigns(g_pseg->abandoned, g_sab_n)
 /* C09: one more abandoned page; the segment as a whole is abandoned exactly when this was its last page in use by the thread */
 __CPROVER_ensures(g_pseg->abandoned == g_ab0 + 1 && g_sab_n == (g_ab0 + 1 == g_pseg->used ? 1 : 0));
 #endif
+
+#ifdef VC_CBMC
+/* ---- clearing a page (all its blocks are free): the slice keeps its span fields, everything from `capacity` on is zeroed, the span goes back through
+   mi_segment_span_free_coalesce exactly once and the segment counts one page less ---- */
+size_t g_co_n; mi_slice_t* g_co_slice; size_t g_co_used_then; size_t g_co_bs_then; size_t g_pused0; uint32_t g_sc0, g_so0; uint8_t g_tag0;
+static mi_slice_t* c_coalesce_rec(mi_slice_t* slice, mi_segments_tld_t* tld)
+__CPROVER_requires(slice->slice_count >= 1 && slice->slice_offset == 0)            /* call-site obligation: a span head */
+__CPROVER_assigns(g_co_n, g_co_slice, g_co_used_then, g_co_bs_then)
+__CPROVER_ensures(g_co_n == __CPROVER_old(g_co_n) + 1 && g_co_slice == slice && g_co_used_then == g_pseg->used && g_co_bs_then == slice->block_size);
+bool _mi_os_reset(void* addr, size_t size) __CPROVER_requires(1) __CPROVER_assigns() __CPROVER_ensures(1);
+static mi_slice_t* mi_segment_page_clear(mi_page_t* page, mi_segments_tld_t* tld)
+__CPROVER_requires(page == g_ppage && g_co_n == 0 && g_pseg->used == g_pused0 && g_pused0 >= 1 && !g_pseg->allow_decommit)
+__CPROVER_requires(page->slice_count == g_sc0 && g_sc0 >= 1 && page->slice_offset == g_so0 && g_so0 == 0 && page->heap_tag == g_tag0 && __CPROVER_is_fresh(tld, sizeof(mi_segments_tld_t)) && __CPROVER_is_fresh(tld->stats, sizeof(mi_stats_t)))
+__CPROVER_assigns(__CPROVER_object_whole(g_pseg), g_co_n, g_co_slice, g_co_used_then, g_co_bs_then)
+__CPROVER_ensures(g_co_n == 1 && g_co_slice == (mi_slice_t*)page && g_co_bs_then == 1 && g_pseg->used == g_pused0 - 1)
+__CPROVER_ensures(page->slice_count == g_sc0 && page->slice_offset == g_so0 && page->heap_tag == g_tag0)
+__CPROVER_ensures(page->capacity == 0 && page->reserved == 0 && page->used == 0 && page->free == NULL && page->local_free == NULL && page->xthread_free == 0 && page->xheap == 0 &&
+                  page->next == NULL && page->prev == NULL && !page->is_zero_init && page->block_size == 1 && page->flags.full_aligned == 0);
+#endif
